@@ -298,3 +298,10 @@ def miri_stage(prop, tier, seed, replay):
 
 
 PROPS["C01"]["stages"] = [rt_stage, miri_stage]
+
+PROPS["C04"]["stages"] = [rt_stage, labchecks.services_stage]
+PROPS["C04"]["level_text"] = PROPS["C04"]["level_text"].replace("random definitions are covered by the lab half when built.",
+    "Random definitions: lab half - generated clients and server traits of random services are compiled and every endpoint is called through the loop-back transport "
+    "(recording handlers and client dispatchers are copied from the generated signatures by `genrun drive`).")
+PROPS["C09"]["stages"] = [rt_stage, labchecks.services_stage]
+PROPS["C09"]["assumptions"] = PROPS["C09"]["assumptions"] + ["lab half: for every call of a generated random service the SafeParams extension holds exactly the arguments the C08 model calls safe"]
